@@ -846,6 +846,9 @@ def _a1_func(prog, rep, om, f, rid, sites):
                 if fld and fld in MUST_NONNULL:
                     report(n.line, x[2], 'is left in %s (%s) when the function returns at line %s'
                            % (x[1], MUST_NONNULL[fld], n.line))
+                elif fld:
+                    report(n.line, x[2], 'is committed to %s when the function returns at line %s: a failed allocation is '
+                                         'silently absorbed as an empty value' % (x[1], n.line))
         return frozenset(s)
 
     def branch(n, st, lab):
